@@ -1,7 +1,8 @@
 (* C05 — Which effects run is a fixed function of state, run mode and effect
    category. Statements only; proofs in proofs/Status_p.v. *)
 From Coq Require Import ZArith QArith List Bool.
-From EosV Require Import lib.AList gen.T_eos model.World model.Status model.Engine model.Ops model.Switches proofs.Status_p.
+From EosV Require Import lib.AList gen.T_eos model.World model.Status model.Engine model.Ops model.Switches model.Wf
+     proofs.Status_p proofs.Owner_p proofs.Cinv_p proofs.Runs_p.
 Import ListNotations.
 Open Scope Z_scope.
 
@@ -57,6 +58,55 @@ Theorem C05_ability_set_get : forall is_default status eid e orun,
   resolve_one State_active (ability_mode is_default status) eid e is_default orun = SOk status.
 Proof. exact ability_set_get. Qed.
 
+(* ---- every history: from the empty system, after any sequence of public
+   operations that respects the caller obligations (fresh ids, existing fits,
+   each source id defined once: op_okb2, evaluated by the extracted driver on
+   every generated call) and in which no call ended in an internal error, the
+   running set of every item held directly by a fit container (everything but
+   charges and autocharges, whose state is their container's) is exactly what
+   the decision table yields for the item's current state, run modes and type,
+   and an unloaded item runs nothing. No bound on the history. ---- *)
+Theorem C05_running_set_is_the_table_after_every_history : forall pen ops,
+  ops_cleanb (init_sys pen) ops = true ->
+  let w := s_w (run (init_sys pen) ops) in
+  forall i it, get_item w i = Some it -> direct it ->
+    (i_loaded it = None -> i_running it = []) /\
+    (i_loaded it <> None -> forall r, expected w it = Some r -> set_equiv (i_running it) r).
+Proof. exact running_is_table. Qed.
+
+(* each single operation keeps the invariant (container consistency + running = table) *)
+Theorem C05_every_operation_keeps_running_table : forall x o,
+  INV (s_w x) -> op_okb2 (clear_err (s_w x)) o = true -> w_err (s_w (fst (step x o))) = None ->
+  INV (s_w (fst (step x o))).
+Proof. intros x o I H He. apply step_INV; [exact I|now apply op_okb2_ok|exact He]. Qed.
+
+(* loading / unloading / adding / removing keep it for every fuel (no error afterwards) *)
+Theorem C05_load_unload_keep_running_table : forall n s i,
+  RJ (fst s) ->
+  (w_err (fst (load n s i)) = None -> RJ (fst (load n s i))) /\
+  (w_err (fst (unload n s i)) = None -> RJ (fst (unload n s i))).
+Proof. intros n s i R. split; [now apply load_RJ|now apply unload_RJ]. Qed.
+
+Definition c05_universe : universe :=
+  mkUniverse []
+    [(EffectId_online, mk_effect 4 false); (2001, mk_effect 1 false); (2002, mk_effect 5 false)]
+    [(3100, mkType None None [] [] None []); (3200, mkType None None [] [EffectId_online; 2001; 2002] (Some 2001) [])]
+    [].
+Definition c05_demo : list op :=
+  [ ODefSource 1 c05_universe; ONewSolsys 1; ONewItem 10 CShip 3100 1 0; ONewItem 12 CModHigh 3200 1 0;
+    ONewFit 1 2; OSource 1 (Some 1%nat); OSolsysAdd 1 1; OSlot 1 SlShip (Some 10%nat);
+    ORackAppend 1 RHigh 12; OState 12 State_active; OMode 12 2002 EffectMode_force_run;
+    OState 12 State_online ]%Z.
+Example C05_history_nonvacuous :
+  ops_cleanb (init_sys []) c05_demo = true /\
+  let w := s_w (run (init_sys []) c05_demo) in
+  match get_item w 12 with
+  | Some it => i_loaded it = Some 1%nat /\ i_running it = [EffectId_online; 2002] /\
+               expected w it = Some [EffectId_online; 2002]
+  | None => False
+  end.
+Proof. vm_compute. repeat split. Qed.
+
 (* non-vacuity: a module type with an online, an active default and an overload
    effect; at state active exactly online + default run *)
 Example C05_nonvacuous :
@@ -75,3 +125,6 @@ Print Assumptions C05_unloaded_runs_nothing.
 Print Assumptions C05_charge_follows_container.
 Print Assumptions C05_side_effect_set_get.
 Print Assumptions C05_ability_set_get.
+Print Assumptions C05_running_set_is_the_table_after_every_history.
+Print Assumptions C05_every_operation_keeps_running_table.
+Print Assumptions C05_load_unload_keep_running_table.
